@@ -3,6 +3,8 @@ package logqlengine
 import (
 	"maps"
 	"regexp"
+	"slices"
+	"strings"
 
 	"github.com/cespare/xxhash/v2"
 	"go.opentelemetry.io/collector/pdata/pcommon"
@@ -30,6 +32,10 @@ func newAggregatedLabels(set LabelSet, by, without map[string]struct{}) *aggrega
 			name:  string(l),
 			value: v.AsString(),
 		})
+	})
+	// Label set is a map: sort entries, so grouping key does not depend on iteration order.
+	slices.SortFunc(labels, func(a, b labelEntry) int {
+		return strings.Compare(a.name, b.name)
 	})
 
 	return &aggregatedLabels{
